@@ -77,6 +77,11 @@ def run_case(case):
                 ctx_seen[data] = (str(context.sop_class), str(context.supported_ts))
                 return 0
 
+            def on_commitment_request(self, remote_ae, uids):
+                uids = list(uids)
+                sim.sleep(rnd.choice([0.0, 0.05, 0.4]))       # requests overlap in here
+                return {'aet': 'RCV', 'address': 'rcvhost', 'port': 4100}, uids, None
+
             def on_receive_find(self, context, ds):
                 tag = str(ds.PatientName)
                 queries.append(tag)
@@ -108,7 +113,28 @@ def run_case(case):
         srv.timeout = 600
         srv.add_scp(sopclass.verification_scp).add_scp(store_file if file_backed else store_mem)
         srv.add_scp(sopclass.qr_find_scp)
+        srv.add_scp(sopclass.StorageCommitment())
         world.serve_ae(srv, ADDR)
+        reports = []
+
+        def rcv_msg(peer, m):
+            f = m['fields']
+            if f.get(0x0100) == 0x0100:
+                from pydicom import filereader
+                import io
+                d = filereader.read_dataset(io.BytesIO(m['data']), True, True)
+                reports.append((str(d.TransactionUID),
+                                sorted(str(i.ReferencedSOPInstanceUID)
+                                       for i in getattr(d, 'ReferencedSOPSequence', []))))
+                peer.send_message(m['pcid'], {0x0002: f.get(0x0002), 0x0100: 0x8100,
+                                              0x0120: f.get(0x0110, 0), 0x0800: 0x0101,
+                                              0x0900: 0, 0x1000: f.get(0x1000),
+                                              0x1002: f.get(0x1002)})
+        from .. import peers as _peers
+        world.serve_peer(('rcvhost', 4100), lambda sock: _peers.ScriptedAcceptor(
+            sim, sock, on_message=rcv_msg,
+            accept=lambda ctxs: [(p, 0, rc.IMPLICIT_LE if rc.IMPLICIT_LE in t else t[0])
+                                 for p, a, t in ctxs]))
         remote = {'aet': 'SRV', 'address': ADDR[0], 'port': ADDR[1]}
         shared = None
         if case['shared']:
@@ -116,12 +142,13 @@ def run_case(case):
             shared.timeout = 600
             shared.add_scu(sopclass.verification_scu).add_scu(sopclass.storage_scu, [CT, MR])
             shared.add_scu(sopclass.qr_find_scu)
+            shared.add_scu(sopclass.storage_commitment_scu)
         n = case['n']
         disturbed = set(rnd.sample(range(n), min(case['disturb'], n - 1)))
         results = {}
         plans = {}
         for c in range(n):
-            ops = [rnd.choice(['echo', 'store', 'store', 'find', 'c_find']) for _ in
+            ops = [rnd.choice(['echo', 'store', 'store', 'find', 'c_find', 'commit']) for _ in
                    range(rnd.randint(2, 5))]
             plans[c] = dict(ops=ops, maxlen=rnd.choice([64, 256, 4096, 16384]),
                             ts=rc.IMPLICIT_LE if case['shared'] else rnd.choice(TSL),
@@ -154,6 +181,7 @@ def run_case(case):
                         ae.add_scu(sopclass.qr_find_scu)
                         ae.add_scu(sopclass.verification_scu)
                         ae.add_scu(sopclass.storage_scu, plan['order'])
+                    ae.add_scu(sopclass.storage_commitment_scu)
                 with ae.request_association(remote) as assoc:
                     res['neg'] = assoc.max_pdu_length
                     res['want_neg'] = min(ae.max_pdu_length, 16384)
@@ -183,6 +211,13 @@ def run_case(case):
                             res.setdefault('sent_ctx', {})[enc(ds, plan['ts'])] = (
                                 str(ds.SOPClassUID), plan['ts'])
                             res['status'].append(('store', int(assoc.get_scu(ds.SOPClassUID)(ds, mid))))
+                        elif op == 'commit':
+                            tuid = '1.2.826.0.1.20.99.%d.%d' % (c, k)
+                            uids = [(CT, '1.2.826.0.1.20.98.%d.%d.%d' % (c, k, j))
+                                    for j in range(rnd.randint(1, 3))]
+                            st = assoc.get_scu('1.2.840.10008.1.20.1')(tuid, uids, mid)
+                            res['status'].append(('commit', int(st)))
+                            res.setdefault('commits', []).append((tuid, sorted(u for _, u in uids)))
                         elif op == 'find':
                             q = pydicom.Dataset()
                             q.PatientName = 'QC%d-%d' % (c, k)
@@ -278,6 +313,14 @@ def run_case(case):
                         v('stored-data-differs-from-sent', 'client %d: a %d-byte data set never '
                           'reached the handler intact' % (c, len(b)))
                         break
+        for c in results:
+            for tuid, insts in results[c].get('commits', []):
+                mine = [r for r in reports if r[0] == tuid]
+                if plans[c]['how'] is None and (len(mine) != 1 or mine[0][1] != insts):
+                    v('commitment-report-mixed-up',
+                      'client %d asked for transaction %s with %r; reports under that uid: %r; '
+                      'all reports %r' % (c, tuid, insts, mine, reports[:6]))
+                    break
         extra = [b for b in stored if not any(b in results[c]['sent'] for c in results)]
         if extra:
             v('handler-saw-data-nobody-sent', '%d data sets' % len(extra))
